@@ -4,6 +4,7 @@ import SqlProofs.LexDollar
 import SqlProofs.LexScan
 import SqlProofs.SplitPartition
 import SqlProofs.SplitValue
+import SqlProofs.LexShift
 /-!
 # SqlProofs.RegionSplit — an opaque region lies inside one statement (C05, character level)
 
@@ -167,5 +168,130 @@ theorem region_span_in_statement (s : Array Cp) (pre region post : List Cp) (ty 
     rw [textLen_append] at e3
     simp only
     omega
+
+/-! ## the body of a region is irrelevant for everything after it, and for the partition -/
+
+/-- the chain of scan steps at the start of a region: the region token, then the chain from the end of the region -/
+theorem scan_region (s : Array Cp) (pre region post : List Cp) (ty : TType)
+    (h : s.toList = pre ++ region ++ post) (hreg : Region pre post region ty)
+    (rest : List Tok) (hsc : Scan defaultCfg (defaultCfg.env s) pre.length rest) :
+    ∃ after, rest = ⟨ty, region⟩ :: after ∧ Scan defaultCfg (defaultCfg.env s) (pre.length + region.length) after := by
+  have hfm := hreg.step s h
+  have hsz : pre.length ≤ (defaultCfg.env s).s.size := by
+    show pre.length ≤ s.size
+    have := congrArg List.length h
+    simp at this; omega
+  cases hsc with
+  | done _ hge =>
+    have := firstMatch_progress _ _ defaultRulesOK _ hsz _ _ hfm
+    omega
+  | err _ c ts' hc hfm' _ => rw [hfm] at hfm'; exact absurd hfm' (by simp)
+  | tok _ act e ts' hpe hes hfm' hact hs' =>
+    rw [hfm] at hfm'
+    simp only [Option.some.injEq, Prod.mk.injEq] at hfm'
+    obtain ⟨rfl, rfl⟩ := hfm'
+    refine ⟨ts', ?_, hs'⟩
+    have hv : ((defaultCfg.env s).s.extract pre.length (pre.length + region.length)).toList = region :=
+      extract_region s pre region post _ h rfl
+    rw [hv]; rfl
+
+theorem sameView_refl : ∀ l : List Tok, SameSplitView l l := by
+  intro l
+  induction l with
+  | nil => trivial
+  | cons a t ih => exact ⟨rfl, Or.inr rfl, ih⟩
+
+theorem sameView_mid (a b : Tok) (htt : a.tt = b.tt) (hbl : valueBlind a.tt = true) (after : List Tok) :
+    ∀ before : List Tok, SameSplitView (before ++ a :: after) (before ++ b :: after) := by
+  intro before
+  induction before with
+  | nil => exact ⟨htt, Or.inl hbl, sameView_refl after⟩
+  | cons x t ih => exact ⟨rfl, Or.inr rfl, ih⟩
+
+/-- two regions of the same kind in the same context, ending with the same character (what a one-character look-behind of the next
+token can see) -/
+theorem suffixEq_after_region (s s' : Array Cp) (pre region region' post : List Cp)
+    (h : s.toList = pre ++ region ++ post) (h' : s'.toList = pre ++ region' ++ post)
+    (hne : region ≠ []) (hne' : region' ≠ []) (hlast : region.getLast? = region'.getLast?) :
+    SuffixEq (defaultCfg.env s) (defaultCfg.env s') (pre.length + region.length) (pre.length + region'.length) := by
+  have key : ∀ (t : Array Cp) (r : List Cp) (hr : r ≠ []), t.toList = pre ++ r ++ post →
+      (defaultCfg.env t).s.toList.drop (pre.length + r.length - 1) = r.getLast hr :: post := by
+    intro t r hr ht
+    show t.toList.drop _ = _
+    have hsplit : r = r.dropLast ++ [r.getLast hr] := (List.dropLast_concat_getLast hr).symm
+    have hlen : pre.length + r.length - 1 = (pre ++ r.dropLast).length := by
+      have := congrArg List.length hsplit
+      simp at this ⊢; omega
+    rw [hlen, ht]
+    conv => lhs; rw [hsplit]
+    simp [List.append_assoc]
+  have hl1 : 1 ≤ region.length := List.length_pos_iff.mpr hne
+  have hl2 : 1 ≤ region'.length := List.length_pos_iff.mpr hne'
+  refine ⟨by omega, by omega, ?_, rfl, rfl⟩
+  rw [key s region hne h, key s' region' hne' h']
+  have e1 := List.getLast?_eq_some_getLast hne
+  have e2 := List.getLast?_eq_some_getLast hne'
+  rw [e1, e2] at hlast
+  injection hlast with hlast
+  rw [hlast]
+
+/-- **the region's body does not influence any other token.**  Two texts `pre ++ region ++ post` and `pre ++ region' ++ post` with regions
+of the same kind (same token type) that end with the same character; if the tokens before the region are the same in both (`before`,
+spelling `pre`) — which can only fail when an unterminated construct in `pre` swallows part of the region — then the two token lists are
+`before ++ [region token] ++ after` with the *same* `after`: lexing restarts at the end of the region and sees, by look-behind, only its
+last character. -/
+theorem region_body_irrelevant (s s' : Array Cp) (pre region region' post : List Cp) (ty : TType)
+    (h : s.toList = pre ++ region ++ post) (h' : s'.toList = pre ++ region' ++ post)
+    (hreg : Region pre post region ty) (hreg' : Region pre post region' ty)
+    (hlast : region.getLast? = region'.getLast?)
+    (ts ts' : List Tok) (hl : lex defaultCfg s = .ok ts) (hl' : lex defaultCfg s' = .ok ts')
+    (before : List Tok) (hb : before <+: ts) (hb' : before <+: ts') (hlen : textLen before = pre.length) :
+    ∃ after, ts = before ++ ⟨ty, region⟩ :: after ∧ ts' = before ++ ⟨ty, region'⟩ :: after := by
+  obtain ⟨rest, hrest⟩ := hb
+  obtain ⟨rest', hrest'⟩ := hb'
+  have hsc := lex_default_scan s ts hl
+  have hsc' := lex_default_scan s' ts' hl'
+  rw [← hrest] at hsc
+  rw [← hrest'] at hsc'
+  have h1 := scan_append _ _ before 0 rest hsc
+  have h1' := scan_append _ _ before 0 rest' hsc'
+  rw [Nat.zero_add, hlen] at h1 h1'
+  obtain ⟨after, ha, hsa⟩ := scan_region s pre region post ty h hreg rest h1
+  obtain ⟨after', ha', hsa'⟩ := scan_region s' pre region' post ty h' hreg' rest' h1'
+  have H := suffixEq_after_region s s' pre region region' post h h' hreg.nonempty hreg'.nonempty hlast
+  have hshift := scan_shift defaultCfg H rules_lb1 _ after hsa (Nat.le_refl _)
+  have hsh : shp (pre.length + region.length) (pre.length + region'.length) (pre.length + region.length)
+      = pre.length + region'.length := by unfold shp; omega
+  rw [hsh] at hshift
+  have := scan_unique _ _ _ _ hshift after' hsa'
+  subst this
+  exact ⟨after, by rw [← hrest, ha], by rw [← hrest', ha']⟩
+
+/-- **a `;` (or anything else) inside a region does not change the partition.**  Under the hypotheses of `region_body_irrelevant`, the
+statements of the two texts have identical extents (token counts): in particular the same number of statements, and the region token sits
+in the statement with the same index. -/
+theorem semicolon_in_region_does_not_split (s s' : Array Cp) (pre region region' post : List Cp) (ty : TType)
+    (h : s.toList = pre ++ region ++ post) (h' : s'.toList = pre ++ region' ++ post)
+    (hreg : Region pre post region ty) (hreg' : Region pre post region' ty)
+    (hlast : region.getLast? = region'.getLast?)
+    (ts ts' : List Tok) (hl : lex defaultCfg s = .ok ts) (hl' : lex defaultCfg s' = .ok ts')
+    (before : List Tok) (hb : before <+: ts) (hb' : before <+: ts') (hlen : textLen before = pre.length) :
+    partitionLens (lexSplit s) = partitionLens (lexSplit s') := by
+  obtain ⟨after, e1, e2⟩ := region_body_irrelevant s s' pre region region' post ty h h' hreg hreg' hlast ts ts' hl hl'
+    before hb hb' hlen
+  unfold lexSplit
+  rw [hl, hl', e1, e2]
+  exact split_value_irrelevant defaultSplitCfg _ _ (sameView_mid ⟨ty, region⟩ ⟨ty, region'⟩ rfl hreg.ty_facts.2 after before)
+
+/-- the case of a region at the very start of the text needs no hypothesis about the tokens before it -/
+theorem semicolon_in_leading_region_does_not_split (s s' : Array Cp) (region region' post : List Cp) (ty : TType)
+    (h : s.toList = region ++ post) (h' : s'.toList = region' ++ post)
+    (hreg : Region [] post region ty) (hreg' : Region [] post region' ty)
+    (hlast : region.getLast? = region'.getLast?) :
+    partitionLens (lexSplit s) = partitionLens (lexSplit s') := by
+  obtain ⟨ts, hl, _⟩ := lex_scan defaultCfg defaultRulesOK s
+  obtain ⟨ts', hl', _⟩ := lex_scan defaultCfg defaultRulesOK s'
+  exact semicolon_in_region_does_not_split s s' [] region region' post ty (by simpa using h) (by simpa using h') hreg hreg'
+    hlast ts ts' hl hl' [] (List.nil_prefix) (List.nil_prefix) rfl
 
 end Sql
